@@ -109,7 +109,7 @@ def gen_spec(rng, profile="mixed"):
                         if rng.random() < 0.4:
                             t["rem"] = rng.randint(1, strats[si][0])
                         for r, q in strats[si][1]:
-                            free[wk][r] -= q
+                            free[wk][r] = free[wk].get(r, 0) - q
                     else:
                         t["at"] = now + rng.randint(0, 5)
             if st == "completed":
